@@ -240,6 +240,25 @@ def run_case(case):
                 server.closeIx(addr)
                 if e is not None:
                     e.closed = True
+            elif kind == "dropbroken":
+                # the entry still has data queued for a peer that is gone (a send on its socket now fails with EPIPE) and is
+                # removed / closed at once: removal closes the socket whatever is still queued, and does not raise
+                addr = ADDRS[op[1]]
+                e = ready.get(addr)
+                if e is not None and not e.closed and addr in server.ixes:
+                    server.transmitIx(b"still queued", addr)
+                    e.double.scripts["send"].default = lambda: BrokenPipeError(errno.EPIPE, "Broken pipe")
+                    info["dropbroken"] = info.get("dropbroken", 0) + 1
+                    if op[2]:
+                        del ready[addr]
+                        server.removeIx(addr)
+                    else:
+                        server.closeIx(addr)
+                        e.closed = True
+                    if not e.double.closed:
+                        fails.append(("remove-not-closed:" + cname, "step %d %r: the socket of %r (data still queued, peer gone) was not "
+                                      "closed" % (step, op, addr)))
+                        break
             elif kind == "shutdown":
                 addr = ADDRS[op[1]]
                 meth, how = HOWS[op[2]]
@@ -305,6 +324,7 @@ def history_strategy(maxlen):
         st.builds(lambda y: [["acceptreset", y]], a),
         st.builds(lambda x, b: [["remove", x, int(b)]], a, st.booleans()),
         st.builds(lambda x: [["close", x]], a),
+        st.builds(lambda x, b: [["dropbroken", x, int(b)]], a, st.booleans()),
         st.builds(lambda x, h: [["shutdown", x, h]], a, st.integers(0, 2)),
     )
     return st.lists(phrase, min_size=4, max_size=max(4, maxlen // 2)).map(
